@@ -5,12 +5,17 @@ package main
 import (
 	"bytes"
 	"context"
+	"crypto/ed25519"
+	"encoding/base64"
 	"encoding/binary"
+	"encoding/json"
 	"fmt"
+	"io"
 	"math/rand/v2"
 	"net"
 	"net/http"
 	"net/http/httptest"
+	"net/url"
 	"os"
 	"strconv"
 	"strings"
@@ -19,6 +24,8 @@ import (
 	"github.com/AdguardTeam/AdGuardDNS/internal/dnsserver"
 	"github.com/AdguardTeam/AdGuardDNS/internal/dnsserver/netext"
 	"github.com/AdguardTeam/AdGuardDNS/verifh/hlib"
+	"github.com/ameshkov/dnscrypt/v2"
+	"github.com/ameshkov/dnsstamps"
 	"github.com/miekg/dns"
 	"github.com/quic-go/quic-go"
 )
@@ -136,6 +143,12 @@ type servers struct {
 	// writeErr is what the response writer returned to the handler.
 	writeErr error
 	cache    map[string]any
+	// doh selects how the DoH server is entered: "" / "post" (wire format in
+	// the body), "get" (RFC 8484 GET, ?dns=base64url), "jsonwire" (the JSON
+	// API's request parameters with ct=application/dns-message) or "json".
+	doh string
+	// jsonBody is the JSON document the last "json" exchange returned.
+	jsonBody []byte
 }
 
 func (sv *servers) handler() dnsserver.Handler {
@@ -224,12 +237,48 @@ func (sv *servers) driveMode(mode, t string, cfgMax uint16, idleMs int, reqWire 
 	case "doh":
 		s := sv.get(t, cfgMax, idleMs).(*dnsserver.ServerHTTPS)
 		h := dnsserver.VerifC08HTTPHandler(s, tcpLocal)
-		r := httptest.NewRequest(http.MethodPost, "https://dns.example/dns-query", bytes.NewReader(reqWire))
-		r.Header.Set("Content-Type", dnsserver.MimeTypeDoH)
+		var r *http.Request
+		switch sv.doh {
+		case "get":
+			r = httptest.NewRequest(http.MethodGet, "https://dns.example/dns-query?dns="+base64.RawURLEncoding.EncodeToString(reqWire), nil)
+		case "jsonwire", "json":
+			q := &dns.Msg{}
+			if q.Unpack(reqWire) != nil || len(q.Question) != 1 {
+				return d
+			}
+			v := url.Values{}
+			v.Set("name", q.Question[0].Name)
+			v.Set("type", strconv.Itoa(int(q.Question[0].Qtype)))
+			if o := q.IsEdns0(); o != nil {
+				if o.Do() {
+					v.Set("do", "1")
+				}
+				if len(o.Option) > 0 {
+					v.Set("sde", "true")
+				}
+			}
+			if q.CheckingDisabled {
+				v.Set("cd", "1")
+			}
+			if sv.doh == "jsonwire" {
+				v.Set("ct", dnsserver.MimeTypeDoH)
+			}
+			r = httptest.NewRequest(http.MethodGet, "https://dns.example/resolve?"+v.Encode(), nil)
+		default:
+			r = httptest.NewRequest(http.MethodPost, "https://dns.example/dns-query", bytes.NewReader(reqWire))
+			r.Header.Set("Content-Type", dnsserver.MimeTypeDoH)
+		}
 		r.RemoteAddr = "192.0.2.7:40000"
 		w := httptest.NewRecorder()
 		h.ServeHTTP(w, r)
-		if w.Code == http.StatusOK {
+		if w.Code == http.StatusOK && sv.doh == "json" {
+			sv.jsonBody = bytes.Clone(w.Body.Bytes())
+			if ct := w.Header().Get("Content-Type"); ct != dnsserver.MimeTypeJSON {
+				d.badWire = "json api answered with content type " + ct
+			}
+
+			return d
+		} else if w.Code == http.StatusOK {
 			sk.writes = append(sk.writes, w.Body.Bytes())
 			if cl := w.Header().Get("Content-Length"); cl != strconv.Itoa(w.Body.Len()) {
 				d.badWire = "content-length " + cl + " != body " + strconv.Itoa(w.Body.Len())
@@ -358,14 +407,33 @@ func (v optView) String() string {
 	return fmt.Sprintf("1 %d %d %d %s %d %s", v.Size, v.Ext, v.Ver, b2s(v.Do), v.Z, v.optsString())
 }
 
+// noOPT returns rrs without the OPT record of the message (the last one, which
+// is what Msg.IsEdns0 and Msg.Truncate look at); further OPT records are
+// ordinary additional records to the library and to the model.
 func noOPT(rrs []dns.RR) (out []dns.RR) {
-	for _, rr := range rrs {
-		if rr.Header().Rrtype != dns.TypeOPT {
+	last := -1
+	for i, rr := range rrs {
+		if rr.Header().Rrtype == dns.TypeOPT {
+			last = i
+		}
+	}
+	for i, rr := range rrs {
+		if i != last {
 			out = append(out, rr)
 		}
 	}
 
 	return out
+}
+
+func countOPT(rrs []dns.RR) (n int) {
+	for _, rr := range rrs {
+		if rr.Header().Rrtype == dns.TypeOPT {
+			n++
+		}
+	}
+
+	return n
 }
 
 // sizes are the library's own length figures for a handler response.
@@ -449,9 +517,13 @@ type tcase struct {
 	req    *dns.Msg
 	resp   *dns.Msg
 	tag    string
+	// doh is the way into the DoH server (see servers.doh); "" is POST.
+	doh string
 }
 
 type pending struct {
+	// prefix4: only ka kn ke tc of the model's answer are compared (JSON API).
+	prefix4 bool
 	// wire: real is a view of the bytes on the wire; the model's Len() field is
 	// not compared.
 	wire     bool
@@ -470,6 +542,9 @@ type runner struct {
 	sv     *servers
 	legacy string
 	queue  []pending
+	// e2e: the case being judged went through the real DNSCrypt library and
+	// what is judged is what the client decrypted.
+	e2e bool
 	// curTsigExempt: the handler response of the case being judged is one that
 	// Msg.Truncate refuses to touch (TSIG last).
 	curTsigExempt bool
@@ -492,6 +567,11 @@ func (x *runner) flush() {
 		}
 		if p.wire {
 			answers[i] = dropLen(answers[i])
+		}
+		if p.prefix4 {
+			if f := strings.Fields(answers[i]); len(f) >= 4 {
+				answers[i] = strings.Join(f[:4], " ")
+			}
 		}
 		if answers[i] != p.real {
 			x.r.Disagree("normalize-model", fmt.Sprintf("%s: model %q, real %q", p.c.tag, answers[i], p.real),
@@ -610,7 +690,9 @@ func (x *runner) run(c tcase) {
 				r.Violate("panic-in-write-path", fmt.Sprintf("%s: write path panicked: %v", c.t, v), x.replay(c, "", reqOpt, hOpt))
 			}
 		}()
+		x.sv.doh, x.sv.jsonBody = c.doh, nil
 		d = x.sv.drive(c.t, c.cfgMax, c.idleMs, reqWire, resp)
+		x.sv.doh = ""
 	}()
 
 	// State of the message object after the write path.
@@ -666,9 +748,21 @@ func (x *runner) run(c tcase) {
 	real := fmt.Sprintf("%d %d %d %s %s %d %d %s", fAns, fNs, fExtra, b2s(resp.Truncated), fOpt.String(), flen, len(packed), b2s(d.emitted))
 
 	lim := x.limit(c, reqOpt)
-	canon := fmt.Sprintf("%s cfg=%d idle=%d req[%s] resp[tc=%s q=%d unc=%d a=%d/%d n=%d/%d e=%d/%d opt=%s] lim=%d",
-		c.t, c.cfgMax, c.idleMs, reqLine(reqOpt), b2s(tc0), z.q, z.unc, nAns, sum(z.ans), nNs, sum(z.ns), nExtra, sum(z.extra),
+	canon := fmt.Sprintf("%s%s cfg=%d idle=%d req[%s] resp[tc=%s q=%d unc=%d a=%d/%d n=%d/%d e=%d/%d opt=%s] lim=%d",
+		c.t, dohSuffix(c.doh), c.cfgMax, c.idleMs, reqLine(reqOpt), b2s(tc0), z.q, z.unc, nAns, sum(z.ans), nNs, sum(z.ns), nExtra, sum(z.extra),
 		hOpt.String(), lim)
+
+	if c.doh == "json" {
+		x.judgeJSON(c, reqOpt, hOpt, nAns, nNs, nExtra, fAns, fNs, fExtra, resp.Truncated, fOpt.Present, canon, line)
+
+		return
+	}
+	if c.doh != "" {
+		r.Count("doh." + c.doh)
+	}
+	if countOPT(c.resp.Extra) > 1 {
+		r.Count("resp.several-opt-records")
+	}
 
 	// ---- property oracle, on the bytes that left the server --------------
 	x.curTsigExempt = tsig && !(reqOpt.Present && !hOpt.Present)
@@ -750,6 +844,57 @@ func (x *runner) run(c tcase) {
 	}
 }
 
+func dohSuffix(mode string) string {
+	if mode == "" {
+		return ""
+	}
+
+	return "/" + mode
+}
+
+// judgeJSON handles a case that went through the JSON API with a JSON answer:
+// there are no DNS bytes to measure, but truncation must still be safe and the
+// document must show the message the model predicts.
+func (x *runner) judgeJSON(c tcase, reqOpt, hOpt optView, nAns, nNs, nExtra, fAns, fNs, fExtra int, ftc, fopt bool, canon, line string) {
+	r := x.r
+	r.Count("doh.json")
+	body := x.sv.jsonBody
+	if body == nil {
+		r.Disagree("json-no-answer", "doh/json: no JSON document for a handler that wrote a response", map[string]any{"case": canon})
+
+		return
+	}
+	var doc dnsserver.JSONMsg
+	if err := json.Unmarshal(body, &doc); err != nil {
+		r.Violate("unparsable-response", "doh/json: "+err.Error(), x.replay(c, line, reqOpt, hOpt))
+
+		return
+	}
+	rp := func() map[string]any {
+		m := x.replay(c, line, reqOpt, hOpt)
+		m["case"] = canon
+
+		return m
+	}
+	dropped := len(doc.Answer) < nAns || fNs < nNs || fExtra < nExtra
+	if dropped && !doc.Truncated {
+		r.Violate("dropped-without-tc", fmt.Sprintf("doh/json: records dropped (%d of %d answers in the document) but TC is false", len(doc.Answer), nAns), rp())
+	}
+	if (dropped || doc.Truncated) && len(doc.Answer) != 0 {
+		r.Violate("truncated-with-answers", fmt.Sprintf("doh/json: truncated response still shows %d answers", len(doc.Answer)), rp())
+	}
+	wantExtra := fExtra
+	if fopt {
+		wantExtra++
+	}
+	if len(doc.Answer) != fAns || len(doc.Extra) != wantExtra || doc.Truncated != ftc {
+		r.Disagree("json-vs-message", fmt.Sprintf("doh/json: document shows %d answers, %d extra, TC=%v; the message has %d, %d, %v",
+			len(doc.Answer), len(doc.Extra), doc.Truncated, fAns, wantExtra, ftc), map[string]any{"case": canon})
+	}
+	r.Case(canon, dropped || fopt)
+	x.queue = append(x.queue, pending{c: c, line: line, real: fmt.Sprintf("%d %d %d %s", fAns, fNs, fExtra, b2s(ftc)), canon: canon, prefix4: true})
+}
+
 // effIdle is the idle timeout the server uses: ConfigDNS.TCPIdleTimeout, with
 // zero meaning DefaultTCPIdleTimeout.
 func effIdle(ms int) int {
@@ -781,7 +926,7 @@ func (x *runner) draw(c tcase, reqOpt, fOpt optView) int {
 }
 
 func (x *runner) replay(c tcase, line string, reqOpt, hOpt optView) map[string]any {
-	rp := map[string]any{"transport": c.t, "max_udp_resp_size": c.cfgMax, "tcp_idle_ms": c.idleMs, "generator": c.tag,
+	rp := map[string]any{"transport": c.t + dohSuffix(c.doh), "max_udp_resp_size": c.cfgMax, "tcp_idle_ms": c.idleMs, "generator": c.tag,
 		"request_opt": reqLine(reqOpt), "handler_opt": hOpt.String(), "model_line": clip(line, 6000)}
 	if b, err := c.req.Pack(); err == nil && len(b) < 2000 {
 		rp["request_hex"] = fmt.Sprintf("%x", b)
@@ -856,7 +1001,10 @@ func (x *runner) oracle(c tcase, d driven, reqOpt, hOpt optView, nAns, nNs, nExt
 	if dropped && !w.Truncated {
 		r.Violate("dropped-without-tc", fmt.Sprintf("%s: records dropped (%d/%d/%d of %d/%d/%d left) but TC is clear", c.t, wAns, wNs, wExtra, nAns, nNs, nExtra), rp())
 	}
-	if (dropped || w.Truncated) && wAns != 0 {
+	if (dropped || w.Truncated) && wAns != 0 && x.e2e && c.t == "dct" {
+		// the library's own truncation keeps the answers on TCP
+		r.Violate("dnscrypt-tcp-truncated-with-answers", fmt.Sprintf("dnscrypt/tcp: the client decrypts a truncated response that still carries %d answers", wAns), rp())
+	} else if (dropped || w.Truncated) && wAns != 0 {
 		r.Violate("truncated-with-answers", fmt.Sprintf("%s: truncated response still carries %d answers", c.t, wAns), rp())
 	}
 
@@ -879,6 +1027,10 @@ func (x *runner) oracle(c tcase, d driven, reqOpt, hOpt optView, nAns, nNs, nExt
 	// 4. padding only on encrypted transports and only when asked for
 	if !eqInts(wOpt.lens(dns.EDNS0PADDING), hOpt.lens(dns.EDNS0PADDING)) {
 		switch {
+		case len(wOpt.lens(dns.EDNS0PADDING)) == 0:
+			// the handler's own padding option was removed (oversize OPT record
+			// stripped of its options): nothing was added
+			r.Count("padding.handler-option-removed")
 		case !hasPadding(c.t) && c.t != "dcu" && c.t != "dct":
 			r.Violate("padding-on-plain-transport", fmt.Sprintf("%s: padding %v added", c.t, wOpt.lens(dns.EDNS0PADDING)), rp())
 		case !reqOpt.has(dns.EDNS0PADDING):
@@ -894,7 +1046,9 @@ func (x *runner) oracle(c tcase, d driven, reqOpt, hOpt optView, nAns, nNs, nExt
 
 	// 5. keep-alive only to a client that sent it
 	if !eqInts(wOpt.lens(dns.EDNS0TCPKEEPALIVE), hOpt.lens(dns.EDNS0TCPKEEPALIVE)) {
-		if !reqOpt.has(dns.EDNS0TCPKEEPALIVE) {
+		if len(wOpt.lens(dns.EDNS0TCPKEEPALIVE)) == 0 {
+			r.Count("keepalive.handler-option-removed")
+		} else if !reqOpt.has(dns.EDNS0TCPKEEPALIVE) {
 			r.Violate("keepalive-not-requested", fmt.Sprintf("%s: keep-alive %v returned although the client sent none", c.t, wOpt.lens(dns.EDNS0TCPKEEPALIVE)), rp())
 		} else {
 			r.Count("keepalive.added")
@@ -1043,6 +1197,25 @@ func genReq(rng *rand.Rand, t string) *dns.Msg {
 	return req
 }
 
+// genJSONReq builds the query the JSON API builds from its URL parameters
+// (httpRequestToMsgJSON): name, type, cd, and an OPT record only for do / sde.
+func genJSONReq(rng *rand.Rand) *dns.Msg {
+	req := &dns.Msg{}
+	qt := []uint16{dns.TypeA, dns.TypeAAAA, dns.TypeTXT, dns.TypeHTTPS}[rng.IntN(4)]
+	req.SetQuestion(qnames[rng.IntN(len(qnames))], qt)
+	req.CheckingDisabled = rng.IntN(4) == 0
+	do, sde := rng.IntN(2) == 0, rng.IntN(3) == 0
+	if do || sde {
+		req.SetEdns0(dns.MaxMsgSize, do)
+		if sde {
+			o := req.Extra[0].(*dns.OPT)
+			o.Option = append(o.Option, &dns.EDNS0_EDE{})
+		}
+	}
+
+	return req
+}
+
 func tsigRR() dns.RR {
 	return &dns.TSIG{Hdr: dns.RR_Header{Name: "key.example.", Rrtype: dns.TypeTSIG, Class: dns.ClassANY},
 		Algorithm: dns.HmacSHA256, TimeSigned: 1700000000, Fudge: 300, MACSize: 32, MAC: strings.Repeat("ab", 32), OrigId: 7}
@@ -1186,6 +1359,12 @@ func genResp(rng *rand.Rand, req *dns.Msg, own *dns.OPT, target int, compressedT
 			resp.Extra = append(resp.Extra, rr)
 		}
 	}
+	if own != nil && rng.IntN(8) == 0 {
+		// More than one OPT record is malformed (RFC 6891, 6.1.1) but parses;
+		// IsEdns0 and Truncate see only the last one, the others are ordinary
+		// additional records to them.
+		resp.Extra = append(resp.Extra, genOwnOPT(rng))
+	}
 	if own != nil {
 		if len(resp.Extra) > 0 && rng.IntN(10) == 0 {
 			// OPT is allowed anywhere in the additional section
@@ -1226,6 +1405,13 @@ func (x *runner) randomCampaign(n int) {
 		if rng.IntN(5) < 2 {
 			own = genOwnOPT(rng)
 		}
+		doh := ""
+		if t == "doh" {
+			doh = []string{"", "", "", "get", "get", "get", "jsonwire", "jsonwire", "json", "json"}[rng.IntN(10)]
+			if doh == "jsonwire" || doh == "json" {
+				req = genJSONReq(rng)
+			}
+		}
 		lim := x.limitFor(t, cfgMax, req)
 		var target int
 		tag := ""
@@ -1251,7 +1437,7 @@ func (x *runner) randomCampaign(n int) {
 		compressed := rng.IntN(2) == 0
 		resp := genResp(rng, req, own, target, compressed)
 		x.r.Count("gen." + tag)
-		x.run(tcase{t: t, cfgMax: cfgMax, idleMs: idle, req: req, resp: resp, tag: fmt.Sprintf("random#%d/%s", i, tag)})
+		x.run(tcase{t: t, cfgMax: cfgMax, idleMs: idle, req: req, resp: resp, tag: fmt.Sprintf("random#%d/%s", i, tag), doh: doh})
 	}
 	x.flush()
 }
@@ -1314,8 +1500,12 @@ func (x *runner) boundaryCampaign() {
 						}
 						resp := genResp(rng, req, own, int(lim)+dl, compressed)
 						x.r.Count("gen.boundary")
+						doh := ""
+						if t == "doh" && (variant+dl)%2 != 0 {
+							doh = "get"
+						}
 						x.run(tcase{t: t, cfgMax: cfg, idleMs: idles[rng.IntN(len(idles))], req: req, resp: resp,
-							tag: fmt.Sprintf("boundary/%s/lim=%d%+d/v%d/c=%v", t, lim, dl, variant, compressed)})
+							tag: fmt.Sprintf("boundary/%s/lim=%d%+d/v%d/c=%v", t, lim, dl, variant, compressed), doh: doh})
 					}
 				}
 			}
@@ -1721,6 +1911,274 @@ func (x *runner) serverMade() {
 	x.flush()
 }
 
+// dnscryptE2E runs the real DNSCrypt server (AdGuard's ServerDNSCrypt around
+// the ameshkov/dnscrypt library, loopback sockets) and judges what a client
+// decrypts: the library truncates a second time, pads, encrypts and frames.
+func (x *runner) dnscryptE2E() {
+	r := x.r
+	rng := x.o.Rand("dnscrypt-e2e")
+	rc, err := dnscrypt.GenerateResolverConfig("example.org", nil)
+	if err != nil {
+		r.Disagree("dnscrypt-e2e-setup", err.Error(), nil)
+
+		return
+	}
+	cert, err := rc.CreateCert()
+	if err != nil {
+		r.Disagree("dnscrypt-e2e-setup", err.Error(), nil)
+
+		return
+	}
+	priv, _ := dnscrypt.HexDecodeKey(rc.PrivateKey)
+	pk := ed25519.PrivateKey(priv).Public().(ed25519.PublicKey)
+	var s *dnsserver.ServerDNSCrypt
+	for i := 0; i < 30; i++ {
+		s = dnsserver.NewServerDNSCrypt(dnsserver.ConfigDNSCrypt{ConfigBase: dnsserver.ConfigBase{Name: "c08-e2e", Addr: "127.0.0.1:0", Handler: x.sv.handler()},
+			DNSCryptProviderName: "example.org", DNSCryptResolverCert: cert})
+		if err = s.Start(context.Background()); err == nil {
+			break
+		}
+	}
+	if err != nil {
+		r.Count("dnscrypt-e2e.skipped-no-listener")
+
+		return
+	}
+	defer func() { _ = s.Shutdown(context.Background()) }()
+	uaddr, taddr := s.LocalUDPAddr().String(), s.LocalTCPAddr().String()
+	var ri *dnscrypt.ResolverInfo
+	for i := 0; i < 3 && ri == nil; i++ {
+		cl := &dnscrypt.Client{Net: "udp", Timeout: 3 * time.Second, UDPSize: 4096}
+		ri, err = cl.DialStamp(dnsstamps.ServerStamp{ServerAddrStr: uaddr, ServerPk: pk, ProviderName: "example.org", Proto: dnsstamps.StampProtoTypeDNSCrypt})
+	}
+	if ri == nil {
+		r.Disagree("dnscrypt-e2e-setup", fmt.Sprintf("certificate fetch failed: %v", err), nil)
+
+		return
+	}
+	// exchange sends one encrypted query and returns the raw encrypted answer;
+	// on TCP also the length prefix and whether bytes followed the frame.
+	exchange := func(t string, reqWire []byte) (raw []byte, prefix int, note string) {
+		q := dnscrypt.EncryptedQuery{EsVersion: ri.ResolverCert.EsVersion, ClientMagic: ri.ResolverCert.ClientMagic, ClientPk: ri.PublicKey}
+		enc, eerr := q.Encrypt(reqWire, ri.SharedKey)
+		if eerr != nil {
+			return nil, 0, "encrypt: " + eerr.Error()
+		}
+		if t == "dcu" {
+			for attempt := 0; attempt < 2; attempt++ {
+				c, derr := net.Dial("udp", uaddr)
+				if derr != nil {
+					return nil, 0, derr.Error()
+				}
+				_, _ = c.Write(enc)
+				_ = c.SetReadDeadline(time.Now().Add(4 * time.Second))
+				buf := make([]byte, 70000)
+				n, rerr := c.Read(buf)
+				_ = c.Close()
+				if rerr == nil {
+					return buf[:n], n, ""
+				}
+			}
+
+			return nil, 0, "no datagram"
+		}
+		c, derr := net.Dial("tcp", taddr)
+		if derr != nil {
+			return nil, 0, derr.Error()
+		}
+		defer c.Close()
+		b := make([]byte, 2+len(enc))
+		binary.BigEndian.PutUint16(b, uint16(len(enc)))
+		copy(b[2:], enc)
+		_, _ = c.Write(b)
+		_ = c.SetReadDeadline(time.Now().Add(4 * time.Second))
+		var l [2]byte
+		if _, rerr := io.ReadFull(c, l[:]); rerr != nil {
+			return nil, 0, "no frame"
+		}
+		prefix = int(binary.BigEndian.Uint16(l[:]))
+		raw = make([]byte, prefix)
+		if _, rerr := io.ReadFull(c, raw); rerr != nil {
+			return nil, prefix, "short frame"
+		}
+
+		return raw, prefix, ""
+	}
+
+	type e2eCase struct {
+		t          string
+		adv        int // -1: no OPT
+		target     int
+		compressed bool
+	}
+	var cases []e2eCase
+	for _, adv := range []int{-1, 0, 512, 600, 1232, 4096} {
+		lim := max(512, adv)
+		for _, d := range []int{-70, -66, -65, -64, -63, -62, -30, -1, 0, 1, 40, 700} {
+			for _, comp := range []bool{false, true} {
+				cases = append(cases, e2eCase{"dcu", adv, lim + d, comp})
+			}
+		}
+		cases = append(cases, e2eCase{"dcu", adv, 100, true}, e2eCase{"dct", adv, 100 + rng.IntN(3000), false})
+	}
+	for _, target := range []int{65300, 65460, 65469, 65470, 65471, 65472, 65473, 65500, 65534, 65535, 65536, 65600} {
+		for _, adv := range []int{-1, 1232} {
+			cases = append(cases, e2eCase{"dct", adv, target, false})
+		}
+	}
+	extra := 40
+	if x.o.Thorough() {
+		extra = 600
+	}
+	for i := 0; i < extra; i++ {
+		adv := []int{-1, 0, 512, 1232, 1452, 4096}[rng.IntN(6)]
+		if rng.IntN(4) == 0 {
+			cases = append(cases, e2eCase{"dct", adv, []int{200, 3000, 65400, 65471, 65480, 65520}[rng.IntN(6)] + rng.IntN(30), rng.IntN(2) == 0})
+		} else {
+			cases = append(cases, e2eCase{"dcu", adv, max(60, max(512, adv)-64+rng.IntN(140)-70), rng.IntN(2) == 0})
+		}
+	}
+
+	var lines []string
+	var reals []string
+	x.e2e = true
+	defer func() { x.e2e = false }()
+	for i, ec := range cases {
+		req := &dns.Msg{}
+		req.SetQuestion(qnames[rng.IntN(2)], dns.TypeTXT)
+		req.Id = uint16(1 + rng.IntN(65000))
+		if ec.adv >= 0 {
+			o := &dns.OPT{Hdr: dns.RR_Header{Name: ".", Rrtype: dns.TypeOPT}}
+			o.SetUDPSize(uint16(ec.adv))
+			switch rng.IntN(6) {
+			case 0:
+				o.Option = append(o.Option, &dns.EDNS0_PADDING{Padding: make([]byte, 5)})
+			case 1:
+				o.Option = append(o.Option, &dns.EDNS0_NSID{Code: dns.EDNS0NSID, Nsid: strings.Repeat("ab", []int{0, 10, 300}[rng.IntN(3)])})
+			case 2:
+				o.SetDo()
+			}
+			req.Extra = append(req.Extra, o)
+		}
+		var own *dns.OPT
+		if rng.IntN(4) == 0 {
+			own = genOwnOPT(rng)
+		}
+		resp := genResp(rng, req, own, ec.target, ec.compressed)
+		if resp.IsTsig() != nil {
+			resp.Extra = resp.Extra[:len(resp.Extra)-1]
+		}
+		reqWire, perr := req.Pack()
+		if perr != nil {
+			continue
+		}
+		reqSeen := &dns.Msg{}
+		_ = reqSeen.Unpack(reqWire)
+		reqOpt := viewOpt(reqSeen.IsEdns0())
+		resp.Question, resp.Response = reqSeen.Question, true
+		hOpt := viewOpt(resp.IsEdns0())
+		nAns, nNs, nExtra := len(resp.Answer), len(resp.Ns), len(noOPT(resp.Extra))
+		c := tcase{t: ec.t, cfgMax: 65535, req: req, resp: resp, tag: fmt.Sprintf("dnscrypt-e2e#%d/%s/adv=%d/target=%d/c=%v", i, ec.t, ec.adv, ec.target, ec.compressed)}
+		lim := x.limit(c, reqOpt)
+		x.sv.cur, x.sv.writeErr, x.sv.mode, x.sv.called = resp, nil, "wrote", false
+		raw, prefix, note := exchange(ec.t, reqWire)
+		// resp is the object the library packed: its final state tells how long
+		// the DNS message was that went into the envelope.
+		final, ferr := resp.Pack()
+		canon := fmt.Sprintf("%s/e2e adv=%d req[%s] resp[a=%d n=%d e=%d opt=%s] target=%d/%v lim=%d", ec.t, ec.adv, reqLine(reqOpt), nAns, nNs, nExtra, hOpt.String(), ec.target, ec.compressed, lim)
+		r.Count("dnscrypt-e2e." + ec.t)
+		r.Evaluations++
+		rp := x.replay(c, "", reqOpt, hOpt)
+		rp["case"] = canon
+		if ferr != nil {
+			r.Count("dnscrypt-e2e.final-message-does-not-pack")
+
+			continue
+		}
+		adv := 0
+		if reqOpt.Present {
+			adv = int(reqOpt.Size)
+		}
+		lines = append(lines, fmt.Sprintf("dcenv %s %d %d", b2s(ec.t == "dcu"), adv, len(final)))
+		wantEnc := 48 + max(256, (len(final)+1)/64*64+64)
+		if (len(final)+1)%64 == 0 {
+			wantEnc = 48 + max(256, len(final)+1+64)
+		}
+		frameOK := ec.t == "dcu" || wantEnc < 65536
+		reals = append(reals, fmt.Sprintf("%d %d %d %s", max(512*b2i(ec.t == "dcu")+65535*b2i(ec.t != "dcu"), adv*b2i(ec.t == "dcu"))-64, wantEnc, wantEnc%65536, b2s(wantEnc < 65536)))
+		if raw == nil {
+			if ec.t == "dcu" && wantEnc > 65507 {
+				r.Count("dnscrypt-e2e.datagram-too-large-for-udp")
+
+				continue
+			}
+			r.Violate("dnscrypt-no-response", fmt.Sprintf("%s: the handler wrote a response but the client got nothing (%s)", ec.t, note), rp)
+
+			continue
+		}
+		if ec.t == "dct" && prefix != wantEnc {
+			if !frameOK && prefix == wantEnc%65536 {
+				r.Violate("dnscrypt-tcp-frame-length-wraps", fmt.Sprintf("dnscrypt/tcp: a %d-byte DNS message is encrypted to %d bytes and framed with length prefix %d", len(final), wantEnc, prefix), rp)
+			} else {
+				r.Violate("bad-framing", fmt.Sprintf("dnscrypt/tcp: length prefix %d for an encrypted response of %d bytes", prefix, wantEnc), rp)
+			}
+
+			continue
+		}
+		if len(raw) != wantEnc {
+			r.Disagree("dnscrypt-envelope-length", fmt.Sprintf("%s: encrypted response is %d bytes, 48 + padded(%d) = %d", ec.t, len(raw), len(final), wantEnc), map[string]any{"case": canon})
+		}
+		dr := dnscrypt.EncryptedResponse{EsVersion: ri.ResolverCert.EsVersion}
+		plain, derr := dr.Decrypt(raw, ri.SharedKey)
+		if derr != nil {
+			r.Violate("unparsable-response", fmt.Sprintf("%s: the client cannot decrypt the response: %v", ec.t, derr), rp)
+
+			continue
+		}
+		if !bytes.Equal(plain, final) {
+			r.Disagree("wire-vs-message", fmt.Sprintf("%s/e2e: decrypted message (%d bytes) differs from the final message object (%d bytes)", ec.t, len(plain), len(final)), map[string]any{"case": canon})
+		}
+		libLimit := max(512, adv) - 64
+		if ec.t == "dct" {
+			libLimit = 65535 - 64
+		}
+		switch n := len(plain) - max(512, libLimit); {
+		case n == 0:
+			r.Count("dnscrypt-e2e.exactly-at-library-limit")
+		case n > 0:
+			r.Count("dnscrypt-e2e.over-library-limit")
+		case n >= -16:
+			r.Count("dnscrypt-e2e.within-16-below-library-limit")
+		}
+		x.curTsigExempt = false
+		x.oracle(c, driven{wire: plain, emitted: true}, reqOpt, hOpt, nAns, nNs, nExtra, lim, canon, "")
+		w := &dns.Msg{}
+		if w.Unpack(plain) == nil {
+			if w.Truncated {
+				r.Count("dnscrypt-e2e.truncated")
+			}
+			r.Case(canon, w.Truncated || len(w.Extra) > 0)
+		}
+	}
+	x.m.ResetLog()
+	for i, a := range x.m.Batch(lines) {
+		r.ModelOps++
+		if a != reals[i] {
+			r.Disagree("dnscrypt-envelope-model", fmt.Sprintf("%s: model %q, real %q", lines[i], a, reals[i]), lines[i])
+		} else {
+			r.Traces++
+		}
+	}
+}
+
+func b2i(b bool) int {
+	if b {
+		return 1
+	}
+
+	return 0
+}
+
 func main() {
 	o := hlib.ParseFlags()
 	r := hlib.NewResult("C08", o)
@@ -1742,6 +2200,7 @@ func main() {
 	x.findings()
 	x.serverMade()
 	x.boundaryCampaign()
+	x.dnscryptE2E()
 	n := 3500
 	if o.Thorough() {
 		n = 30000
